@@ -147,7 +147,7 @@ class EntityContainer(Entity):
         :return entity: Registered Entity to the workspace.
         """
         indices = self.mask_by_extent(extent, inverse=inverse)
-        if indices is None:
+        if indices is None or not np.any(indices):
             return None
 
         return self.copy(
